@@ -29,10 +29,12 @@ def run(tier):
     ncfg, nlines, nspell = (60, 6, 6) if tier == "quick" else (1500, 10, 12)
     blocks = []
     for _ in range(ncfg):
-        cfg = g.cfg(constraints=True)
+        # a third of the handlers define the standard argument --endvalues: markers behind multi-value uses (several per line),
+        # a positional value directly behind a marker
+        cfg = g.cfg(constraints=True, endvalues=0.34)
         acts = []
         for _ in range(nlines):
-            line = gen_valid(g, cfg)
+            line = g.with_markers(cfg, gen_valid(g, cfg))
             if line is None:
                 continue
             for _ in range(nspell):
